@@ -1,8 +1,103 @@
-/- Driver handlers for area `cidr` (stub: replace `handle`). -/
+/- Driver handlers for area `cidr` (C16: outbound network policy). -/
 import VDriver.Util
+import VModel.Cidr
 namespace V.Driver.CidrOps
-open V V.Driver
+open V V.Driver V.Cidr
 
-def handle (_op : String) (_args : Array String) : Option String := none
+def natOfHex (s : String) : Option Nat :=
+  s.toList.foldl (fun acc c => match acc, hexDigitVal c with
+    | some n, some d => some (n * 16 + d)
+    | _, _ => none) (some 0)
+
+def hexOfNat (width : Nat) (n : Nat) : String :=
+  String.ofList ((List.range width).reverse.map (fun i => hexChar ((n / 16 ^ i) % 16)))
+
+def unhexStr (s : String) : Option Cidr.Str := (unhex s).map (fun b => (bytesStr b).toList)
+
+/-- `<bitLen>/<hex32>/<ones>` or `x` -/
+def parseNum (s : String) : Option (Option CIDR) :=
+  if s == "x" then some none else
+  match s.splitOn "/" with
+  | [b, a, n] =>
+    match b.toNat?, natOfHex a, n.toNat? with
+    | some b, some a, some n => some (some ⟨b, a, n⟩)
+    | _, _, _ => none
+  | _ => none
+
+def showCIDR : Option CIDR → String
+  | none => "x"
+  | some c => toString c.bitLen ++ "/" ++ hexOfNat 32 c.addr16 ++ "/" ++ toString c.ones
+
+/-- an entry `hex(text)=<num>`: returns (Lean's parse of the text, Go's parse) -/
+def parseEntry (e : String) : Option (Option CIDR × Option CIDR) :=
+  match e.splitOn "=" with
+  | [t, n] =>
+    match unhexStr t, parseNum n with
+    | some txt, some g => some (parseCIDR txt, g)
+    | _, _ => none
+  | _ => none
+
+def parseList (s : String) : Option (List (Option CIDR × Option CIDR)) :=
+  if s == "." then some [] else (s.splitOn ",").mapM parseEntry
+
+def showVerdict : Verdict → String
+  | .ok => "ok"
+  | .badNetwork => "err:network"
+  | .badHostPort => "err:hostport"
+  | .badIP => "err:ip"
+  | .denied => "err:denied"
+
+/-- ops:
+    control <net> <addr> <split> <goip> <allow> <deny>  -> ok | err:network | err:hostport | err:ip | err:denied   (+ spec)
+    allowed <ip hex32> <allow> <deny>                   -> true | false                                            (+ spec)
+    parseip <text>                                      -> x | <hex32>
+    parsecidr <text>                                    -> x | <bitLen>/<hex32>/<ones>
+-/
+def handle (op : String) (args : Array String) : Option String :=
+  match op, args.toList with
+  | "control", [net, _addr, split, goip, al, dl] =>
+    match unhexStr net, parseList al, parseList dl with
+    | some network, some allow2, some deny2 =>
+      let sp : Option (Option Cidr.Str) :=
+        if split == "E" then some none
+        else if split.startsWith "H" then (unhexStr (split.drop 1).toString).map some
+        else none
+      match sp with
+      | none => some "bad-op"
+      | some sp =>
+        -- the text layer is tied here: Lean's parse of every entry must be Go's
+        if (allow2 ++ deny2).any (fun p => p.1 != p.2) then some "tie:parsecidr-mismatch" else
+        let allow := allow2.map (·.1)
+        let deny := deny2.map (·.1)
+        let leanIP := sp.bind parseIP
+        let goIP := if goip == "x" then none else natOfHex goip
+        if sp.isSome && leanIP != goIP then some "tie:parseip-mismatch" else
+        let m := control allow deny network sp
+        let netOK := network == "tcp4".toList || network == "tcp6".toList
+        let specOK : Bool := netOK && (match leanIP with
+          | some ip => decide (Spec.permitted (normalise ip) allow deny)
+          | none => false)
+        let s := if specOK then "ok" else if m != .ok then showVerdict m else "err:must-refuse"
+        some (showVerdict m ++ "\t" ++ s)
+    | _, _, _ => some "bad-op"
+  | "allowed", [ip, al, dl] =>
+    match natOfHex ip, parseList al, parseList dl with
+    | some ip16, some allow2, some deny2 =>
+      if (allow2 ++ deny2).any (fun p => p.1 != p.2) then some "tie:parsecidr-mismatch" else
+      let allow := allow2.map (·.1)
+      let deny := deny2.map (·.1)
+      let m := isAllowed ip16 allow deny
+      let s : Bool := decide (Spec.permitted (normalise ip16) allow deny)
+      some (toString m ++ "\t" ++ toString s)
+    | _, _, _ => some "bad-op"
+  | "parseip", [t] =>
+    match unhexStr t with
+    | some txt => some ("ip:" ++ (match parseIP txt with | none => "x" | some a => hexOfNat 32 a))
+    | none => some "bad-op"
+  | "parsecidr", [t] =>
+    match unhexStr t with
+    | some txt => some ("cidr:" ++ showCIDR (parseCIDR txt))
+    | none => some "bad-op"
+  | _, _ => none
 
 end V.Driver.CidrOps
